@@ -14,6 +14,7 @@ import StimModel.Model.Flow
 import StimModel.Model.Rewrite
 import StimModel.Model.Noise
 import StimModel.Model.Text
+import StimModel.Model.DemText
 /-! Line-protocol dispatcher: one request line in, one answer line out. -/
 namespace Stim.Driver
 open Stim Stim.Wire
@@ -1366,6 +1367,60 @@ def textCmd (toks : List String) : String :=
       | _ => "bad-request")
   | _ => "bad-request"
 
+/-! ### `dtext ...` (C08, byte level) -/
+open Stim.DemText Stim.Text in
+mutual
+def toTDem : DemOp → TDem
+  | .error p tag ts => .instr .error (tag.toList.map Char.toNat) [ratOfBits p] ts []
+  | .detector args tag t => .instr .detector (tag.toList.map Char.toNat) (args.map ratOfBits) [t] []
+  | .logical tag t => .instr .logical (tag.toList.map Char.toNat) [] [t] []
+  | .shift args tag k => .instr .shift (tag.toList.map Char.toNat) (args.map ratOfBits) [] [k]
+  | .rep n tag body => .rep n (tag.toList.map Char.toNat) (toTDems body)
+def toTDems : List DemOp → List TDem
+  | [] => []
+  | o :: os => toTDem o :: toTDems os
+end
+
+open Stim.DemText in
+mutual
+def tdemEq (cmp : Rat → Rat → Bool) : TDem → TDem → Bool
+  | .instr k t a ts ns, .instr k' t' a' ts' ns' =>
+    k == k' && t == t' && ts == ts' && ns == ns' && a.length == a'.length && (List.zipWith cmp a a').all id
+  | .rep n t b, .rep n' t' b' => n == n' && t == t' && tdemsEq cmp b b'
+  | _, _ => false
+def tdemsEq (cmp : Rat → Rat → Bool) : List TDem → List TDem → Bool
+  | [], [] => true
+  | o :: os, o' :: os' => tdemEq cmp o o' && tdemsEq cmp os os'
+  | _, _ => false
+end
+
+open Stim.DemText Stim.Text in
+def dtextCmd (toks : List String) : String :=
+  match toks with
+  | "print" :: rest =>
+    (match parseDem rest with
+    | some (m, [hex]) =>
+      let t := toTDems m
+      let mine := printDemOps 0 t
+      let theirs := unhexBytes hex
+      if mine != theirs then s!"print-differs at byte {firstDiff mine theirs} model-len={mine.length} impl-len={theirs.length}"
+      else
+        match parseDemText mine with
+        | .err e => s!"printed-text-rejected-by-model-parser {e}"
+        | .ok back _ => if tdemsEq argSix t back then "ok" else "model-roundtrip-differs"
+    | _ => "bad-request")
+  | "parse" :: hex :: rest =>
+    let bytes := unhexBytes hex
+    (match parseDemText bytes, rest with
+    | .err _, ["reject"] => "ok"
+    | .err e, _ => s!"model-rejects {e}"
+    | .ok _ _, ["reject"] => "model-accepts"
+    | .ok mine _, wire =>
+      match parseDem wire with
+      | some (m, []) => if tdemsEq argClose mine (toTDems m) then "ok" else "parsed-model-differs"
+      | _ => "bad-request")
+  | _ => "bad-request"
+
 def answer (toks : List String) : String :=
   match toks with
   | "tsim" :: "check" :: rest => tsimCheck rest
@@ -1389,6 +1444,7 @@ def answer (toks : List String) : String :=
   | "explain" :: "check" :: rest => explainCheck rest
   | "flow" :: rest => flowCmd rest
   | "text" :: rest => textCmd rest
+  | "dtext" :: rest => dtextCmd rest
   | "noise" :: "check" :: rest => noiseCheck rest
   | "noise" :: "dem" :: rest => noiseDem rest
   | "gencode" :: "check" :: rest => gencodeCheck rest
